@@ -179,16 +179,20 @@ def handle (j : Json) : R Json := do
         let hasData := match req with
           | .do_ _ d => d.isSome
           | _ => false
+        -- the verdict of the client datatype rebuilt from the described datainfo (do: of the argument; change: of the
+        -- parameter); a change for which the harness has no verdict (not aimed at a described parameter) demands nothing
         let client := match s.getObjVal? "client" with
           | .ok (.bool b) => b
-          | _ => false
+          | _ => kind == .change
         let pr : Probe JJ VV := ⟨kind, m, a, ← parseReply (← fld o "reply"), ← (← fldArr o "calls").mapM parseCall,
           false, allowed, hasData, client⟩
         if !(probeOKB r1 pr) then
           let what := match findDesc r1 m a with
             | none => "undescribed-reachable"
             | some _ => match kind with
-              | .change => "flag-not-honoured"
+              | .change =>
+                -- which clause failed: the flag, or the described datainfo (a payload it excludes was taken)
+                if probeOKB r1 { pr with clientAccepts := true } then "datainfo-not-honoured" else "flag-not-honoured"
               | .read => "constant-not-read"
               | .do_ => "command-datainfo-not-honoured"
               | _ => "other"
